@@ -241,6 +241,49 @@ def gen_tables(repo, out):
     A("/-- float literals inside _arc_to_cubic (the 0.001 segment fudge, 0.25) -/")
     A("def arcToCubicFloatLitBits : List Nat := " + lean_list(lean_float(v) for v in nums))
 
+    # ---- dataclass field tables of the shapes and gradients (svg_types.py)
+    import dataclasses
+    svg_types = importlib.import_module("picosvg.svg_types")
+    svg_mod = importlib.import_module("picosvg.svg")
+    def field_rows(klass):
+        rows = []
+        for f in dataclasses.fields(klass):
+            tname = getattr(f.type, "__name__", str(f.type))
+            d = f.default
+            if d is dataclasses.MISSING:
+                dv = "<required>"
+            elif isinstance(d, svg_meta._LinkedDefault):
+                dv = "<linked:%s>" % d.attr_name
+            elif isinstance(d, float):
+                dv = repr(d)
+            elif isinstance(d, tuple) and hasattr(d, "_fields"):
+                dv = " ".join(svg_meta.ntos(v) for v in d)
+            else:
+                dv = str(d)
+            rows.append("(%s, %s, %s)" % (lean_str(f.name), lean_str(tname), lean_str(dv)))
+        return lean_list(rows)
+    shape_classes = {k: v for k, v in svg_mod._SHAPE_CLASSES.items() if not k.startswith("{")}
+    A("/-- dataclass fields (name, type, default) of every shape class, keyed by tag -/")
+    A("def shapeFields : List (String × List (String × String × String)) := " + lean_list(
+        "(%s, %s)" % (lean_str(k), field_rows(v)) for k, v in shape_classes.items()))
+    A("def gradientFields : List (String × List (String × String × String)) := " + lean_list(
+        "(%s, %s)" % (lean_str(k), field_rows(v)) for k, v in svg_mod._GRADIENT_CLASSES.items()))
+    A("/-- svg._GRADIENT_COORDS -/")
+    A("def gradientCoords : List (String × List (String × String)) := " + lean_list(
+        "(%s, %s)" % (lean_str(k), lean_list("(%s, %s)" % (lean_str(a), lean_str(b)) for a, b in v)) for k, v in svg_mod._GRADIENT_COORDS.items()))
+    A("def stopFields : List String := " + lean_list(lean_str(x) for x in sorted(svg_mod._GRADIENT_FIELDS["stop"])))
+    A("def attribWithCustomInheritance : List String := " + lean_list(lean_str(x) for x in sorted(svg_mod._ATTRIB_W_CUSTOM_INHERITANCE)))
+    handler_kind = {}
+    for k, v in svg_mod._INHERIT_ATTRIB_HANDLERS.items():
+        handler_kind[k] = v.__name__
+    A("/-- svg._INHERIT_ATTRIB_HANDLERS: attribute name ↦ handler function name (insertion order) -/")
+    A("def inheritHandlers : List (String × String) := " + lean_list("(%s, %s)" % (lean_str(k), lean_str(v)) for k, v in handler_kind.items()))
+    A("def inheritableAttrib : List String := " + lean_list(lean_str(x) for x in sorted(svg_mod._INHERITABLE_ATTRIB)))
+    A("def inheritableAttribDefaults : List (String × String) := " + lean_list("(%s, %s)" % (lean_str(k), lean_str(v)) for k, v in svg_mod._INHERITABLE_ATTRIB_DEFAULTS.items()))
+    A("def gradientTransformNdigits : Nat := %d" % svg_mod._GRADIENT_TRANSFORM_NDIGITS)
+    A("def maxPctErrorBits : Nat := " + lean_float(svg_mod._MAX_PCT_ERROR))
+    A("def defaultToleranceBits : Nat := " + lean_float(svg_mod._DEFAULT_DEFAULT_TOLERENCE))
+
     # ---- fingerprints of modelled function bodies
     fps = []
     for mod, names in MODELLED_FUNCS.items():
